@@ -63,6 +63,13 @@ impl Duration {
     pub open spec fn is_zero_spec(&self) -> bool { !self.inf && self.ns == 0 }
     #[verifier::external_body]
     pub fn is_zero(&self) -> (r: bool) ensures r == self.is_zero_spec() { unimplemented!() }
+    // whole milliseconds / microseconds, rounded down (std); the infinite stand-in for Duration::from_secs(u64::MAX) is never zero
+    #[verifier::external_body]
+    pub fn as_millis(&self) -> (r: u128) ensures !self.inf ==> r as nat == self.ns / 1_000_000, self.inf ==> r > 0 { unimplemented!() }
+    #[verifier::external_body]
+    pub fn as_micros(&self) -> (r: u128) ensures !self.inf ==> r as nat == self.ns / 1_000, self.inf ==> r > 0 { unimplemented!() }
+    #[verifier::external_body]
+    pub fn as_secs(&self) -> (r: u64) ensures !self.inf ==> r as nat == self.ns / 1_000_000_000, self.inf ==> r > 0 { unimplemented!() }
     #[verifier::external_body]
     pub fn saturating_sub(self, o: Duration) -> (r: Duration)
         requires !self.inf, !o.inf
